@@ -58,8 +58,8 @@ PROPS = {
         props_v="Props/C12.v",
         corr_v=["Corr/CheckHeap.v"],
         n_quick=30, n_thorough=600,
-        explanation="Theorems (object-graph model): for every heap and every value, the model's deep copy only extends the heap and no location is reachable both from the copy and from the source (any nesting, any field, lists and maps included); a store to a location a value does not reach leaves every snapshot of it unchanged (so mutating one side never changes the other); later allocations never alter earlier results. Correspondence: Node/Edge/Person/ExternalReference/NodeList Copy against the model's deep copy on the real object graph recorded by pointer identity (same values, same shape, same sharing, including each method's nil/empty conventions; field positions from the generated Go struct table). Union and Intersect: separation of result and operands evaluated on the observed graphs with the same predicate (not modelled on this level), plus histories of two calls sharing a receiver with spare capacity and an overwrite of every mutable part of the later result. Three genuine defects repaired (753edef, caa1ae7, 6d22e2c).",
-        assumptions=["Union / Intersect independence is decided on observed graphs, their heap-level assembly is not modelled (partial for those two)", "sub-slice aliasing with different base pointers is not represented (does not occur in the code)", "that a copy compares equal to its source is checked by the oracle with the real Equal; as a theorem it is the HCopy correspondence plus C13"],
+        explanation="Theorems (object-graph model): for every heap and every value, the model's deep copy only extends the heap and no location is reachable both from the copy and from the source (any nesting, any field, lists and maps included); the snapshot of the copy equals the snapshot of the source with the method's nil/empty conventions applied (a copy compares equal to its source), on every well-typed heap; a store to a location a value does not reach leaves every snapshot of it unchanged (so mutating one side never changes the other); later allocations never alter earlier results. Correspondence: Node/Edge/Person/ExternalReference/NodeList Copy against the model's deep copy on the real object graph recorded by pointer identity (same values, same shape, same sharing, including each method's nil/empty conventions; field positions from the generated Go struct table). Union and Intersect: separation of result and operands evaluated on the observed graphs with the same predicate (not modelled on this level), plus histories of two calls sharing a receiver with spare capacity and an overwrite of every mutable part of the later result. Three genuine defects repaired (753edef, caa1ae7, 6d22e2c).",
+        assumptions=["Union / Intersect independence is decided on observed graphs, their heap-level assembly is not modelled (partial for those two)", "sub-slice aliasing with different base pointers is not represented (does not occur in the code)"],
     ),
     "C13": dict(
         props_v="Props/C13.v",
